@@ -37,22 +37,33 @@ PROPS = {
    "Kernel-checked round-trip theorem for CBOR over all well-formed streams; UBJSON/JSON by executable mirror, "
    "correspondence and specification oracle."),
  "C02": P("DESIGN.md 7 C02",
-   "Lean 4 proof (resumption law of the partial-token buffer) + differential correspondence over cut sets",
-   "collect_eq_spec / collect_resume_partial: the shared partial-token buffer of cborl and ubjson delivers the same token, "
-   "rest and buffer however the token's bytes are cut. Correspondence: op `chunk` = whole-buffer Parse vs Write-per-chunk "
-   "(+end) / ParseReader, all cut sets of short documents, every two-way cut and 1-byte chunking of longer ones, valid "
-   "and mutated, with stack-depth and buffer-length hooks after every chunk; oracle: events and verdict class equal.",
-   "Core lemma proved (partial); the composition over all parser states is decided by mirror + correspondence + oracle.",
-   partial="full chunk-independence theorem over all parser states not yet proved (target statement in Props/C02.lean)"),
+   "Lean 4 proof (full chunk-independence theorem for the CBOR parser: same events and same verdict for every byte string, every chunking, every visitor fault index) + differential correspondence over cut sets",
+   "cbor_chunk_independent / cbor_chunk_independent_failAt / cbor_chunkings_agree / cbor_chunk_independent_reach: for every "
+   "byte string (valid, invalid, truncated) and every way of cutting it into chunks (empty chunks, single bytes), Write per "
+   "chunk + end of input delivers the identical events and the identical verdict (same error value) as whole-buffer Parse, "
+   "also under a failing visitor and from every state reachable by successful writes. Proof: stack/buffer invariant, "
+   "fuel-free big-step relation, split law for every step function lifted through feedUntil/feed/Write "
+   "(SF/Proofs/CborChunk*.lean, ~2900 lines); core for the token buffer: collect_eq_spec / collect_resume_partial (shared "
+   "verbatim by the UBJSON parser). Correspondence: op `chunk` = whole-buffer Parse vs Write-per-chunk (+end) / ParseReader, "
+   "all cut sets of short documents, every two-way cut and 1-byte chunking of longer ones, every byte in every parser "
+   "context, valid and mutated, with stack-depth and buffer-length hooks after every chunk; oracle: events and verdict "
+   "class equal.",
+   "Kernel-checked in full for the CBOR parser; UBJSON and JSON by mirror + correspondence + oracle (collect law proved for UBJSON's buffer).",
+   partial="UBJSON and JSON parsers: no chunk-independence theorem yet (mirror + correspondence + oracle)"),
  "C03": P("DESIGN.md 7 C03",
-   "Lean 4 proof (no step indexes an empty slice, for all states/inputs/chunkings) + differential correspondence incl. exhaustive short inputs",
+   "Lean 4 proof (CBOR parser: no panic from any state; no hang with an explicit linear step bound; truncation is an error; exact acceptance) + differential correspondence incl. every byte in every parser context",
    "parse_no_panic / writeChunks_no_panic / feedUntil_no_panic: the CBOR parser never panics on ANY bytes, ANY chunking, "
-   "from ANY state; collect_buffer_le: the buffer grows only by received bytes. Correspondence: outcome class "
-   "(ok/err/panic/hang) on exhaustive <=2-byte inputs (<=3 thorough), all prefixes, mutations, tampered lengths, pull "
-   "decoders; oracle: no panic/hang, truncated input (per the reference decoders) is an error, events proportional to input.",
-   "No-panic proved for CBOR for all inputs; termination bound, truncation clause and the other two parsers by mirror "
-   "(fuel-instrumented) + correspondence + oracle; wall-clock and heap are runtime facts (partial by nature).",
-   partial="hang-freedom (linear step bound) and truncation-is-error not yet proved; UBJSON payload-free counts are a known finding"),
+   "from ANY state; parse_terminates / writeChunks_terminates / feedUntil_linear: the loops finish within 2|b|+2 iterations "
+   "for every byte string and chunking (each step consumes a byte or leaves a pending zero-length start; invariant over "
+   "ghost contexts of open containers); truncated_is_error / truncated_is_error_chunks: every proper non-empty prefix of "
+   "every grammatical item is refused through Parse and through every chunking; parse_accepts_iff: the parser accepts "
+   "EXACTLY the concatenations of complete items; collect_buffer_le: the buffer grows only by received bytes. "
+   "Correspondence: outcome class (ok/err/panic/hang) on exhaustive <=2-byte inputs (<=3 thorough), every byte value in "
+   "every parser context followed by 0/1/2/9 filler bytes (whole and byte-wise), all prefixes, mutations, tampered lengths, "
+   "pull decoders; oracle: no panic/hang, truncated input (per the reference decoders) is an error, events proportional to input.",
+   "Kernel-checked for the CBOR parser in full (no panic, linear termination, truncation, exact acceptance); UBJSON and JSON by "
+   "mirror (fuel-instrumented) + correspondence + oracle; wall-clock and heap are runtime facts (partial by nature).",
+   partial="UBJSON and JSON parsers: no theorem yet; UBJSON payload-free counts are a known finding; wall-clock time and real heap cannot be exhibited by the model"),
  "C04": P("DESIGN.md 7 C04",
    "Lean 4 proof (integer-literal layer exact, never wraps) + differential correspondence + RFC 8259 reference decoder as oracle",
    "int_literal_exact_partial / parseUint_exact: every integer literal is reported with exactly its value as int64/uint64 "
